@@ -242,7 +242,17 @@ def _c01_curved(h):
                     for k in ((0, 0), (1, 0), (0, 1), (2, 0), (1, 1), (0, 2)):
                         m = lambda s: float(IntegrateShape.polynomial(s, *k)) if isinstance(s, DefinedShape) else 0.0
                         lhs, rhs = m(U) + m(I), m(A0) + m(B0)  # identity between library values (C05)
-                        ensure("inclusion-exclusion-of-moments", abs(lhs - rhs) <= 1e-5 * (1 + abs(rhs)), detail=f"{where}: moment{k}: m(A|B)+m(A&B)={lhs} vs m(A)+m(B)={rhs}")
+                        okm = abs(lhs - rhs) <= 1e-5 * (1 + abs(rhs))
+                        if not okm:
+                            degs = {len(sg_) - 1 for cv_ in (ca, cb) for sg_ in cv_}
+                            nd = lambda d_: 3 + (k[0] + 1) + k[1] + d_
+                            inexact = [d_ for d_ in degs if d_ * (k[0] + 1 + k[1]) + d_ - 1 > (nd(d_) if nd(d_) % 2 else nd(d_) - 1)]
+                            if inexact:
+                                # mechanism-pinned: the node rule 3+a+b+degree is not exact for this degree/moment, and the
+                                # quadrature error on whole segments differs from the error on their split pieces
+                                h.finding("quadrature-inexact-curved-moment", f"{where}: moment{k} on segments of degree {inexact}: m(A|B)+m(A&B)={lhs} vs m(A)+m(B)={rhs}")
+                                continue
+                        ensure("inclusion-exclusion-of-moments", okm, detail=f"{where}: moment{k}: m(A|B)+m(A&B)={lhs} vs m(A)+m(B)={rhs}")
                         if k == (0, 0):
                             ex = float(oracle.curve_moment(ca, *k)) + float(oracle.curve_moment(cb, *k))
                             ensure("areas-agree-with-exact-integrals", abs(lhs - ex) <= 1e-9 * (1 + abs(ex)), detail=f"{where}: area(A|B)+area(A&B)={lhs}, exact {ex}")
